@@ -134,6 +134,17 @@ def check_send_data(ctx, cls, func):
                        "a truthy return is reached only through the normal end of the send loop" if ok else
                        f"`{r.text()}` is reachable without the send loop having finished",
                        key="success-after-loop " + r.text(), where=func.where)
+        # the count applied to the buffer is the one of THIS pass: after a send that raised (EWOULDBLOCK) no old count is re-applied
+        trims = [n for n in cfg.real_nodes() if isinstance(n.ast, (ast.Assign, ast.AugAssign)) and S.args and any(norm(t_) == norm(S.args[0]) for t_ in rules.assigned_targets(n.ast)) and rules.expr_depends_on(n.ast.value, tainted) and S not in n.calls]
+        send_node = next(n for n in cfg.real_nodes() if S in n.calls)
+        head_nodes = [n for n in cfg.nodes if n.kind == "test" and n.ast is loop.test]
+        hnodes = [n for n in cfg.nodes if n.kind == "handler" and any(n.ast is h for t in _enclosing_try(fn, S) for h in t.handlers)]
+        count_vars = {t_.id for n in [send_node] if isinstance(n.ast, ast.Assign) for t_ in n.ast.targets if isinstance(t_, ast.Name)}
+        resets = [n for n in cfg.real_nodes() if n is not send_node and isinstance(n.ast, ast.Assign) and any(isinstance(t_, ast.Name) and t_.id in count_vars for t_ in n.ast.targets)]
+        stale = [t_ for t_ in trims for h in hnodes if cfg.path_exists(h, t_, avoid=head_nodes + resets + [send_node])]
+        ctx.ob("C10.P1", q, not stale, "the buffer is advanced only by the count of the send that just succeeded" if not stale else
+               f"`{stale[0].text()}` is also reached from the exception handler of the send: after a send that raised (EWOULDBLOCK) the count of the previous partial write is applied again - bytes are skipped, the call still returns True",
+               key="count-fresh " + key, where=func.where)
         # the first pass is always made, and the normal end of the loop is reported as success
         if isinstance(test, ast.Name):
             inits = [n for n in cfg.real_nodes() if isinstance(n.ast, ast.Assign) and any(isinstance(t_, ast.Name) and t_.id == test.id for t_ in n.ast.targets) and cfg.dominates(n, test_node) and not cfg.path_exists(test_node, n)]
@@ -510,6 +521,11 @@ def check_linger(ctx):
             if not (isinstance(call.func, ast.Attribute) and call.func.attr == "setsockopt"):
                 continue
             n += 1
+            if any("TCP_USER_TIMEOUT" in norm(a) for a in call.args):
+                ctx.ob("C10.P6", cls.name, False,
+                       "TCP_USER_TIMEOUT is set on the connection socket: when accepted bytes stay unacknowledged (a peer that drains slowly or with a closed window) longer than that time the kernel resets the connection and discards the send queue - bytes send_data reported as sent never arrive",
+                       key=norm(call)[:80], where=cls.where)
+                continue
             if not any("SO_LINGER" in norm(a) for a in call.args):
                 continue
             val = call.args[-1]
